@@ -1,4 +1,8 @@
 -- Source-derived part of the build: depends on lean/Rbql/Generated/*, regenerated from /repo on every check run.
+-- Each theorem file below is also built and audited on its own (`lake build +Rbql.Theorems.X`), so that a broken
+-- source-derived obligation concerns its own property only.
 import Rbql
 import Rbql.Generated.SharedState
 import Rbql.Theorems.C16
+import Rbql.Generated.RowFlow
+import Rbql.Theorems.C06Gen
